@@ -82,6 +82,25 @@ def emit(p, fname, naming=0):
         g, x = N["g"], N["x"]
         return sig + "\t%s := func(%s int) int {\n\t\treturn %s\n\t}\n\treturn %s\n}\n" % (
             g, x, binw(p["op"], x, a, pres, True), binw(p["op2"], "%s(%s)" % (g, b), "%s(3)" % g, pres, False))
+    if t == "hoistarms":
+        s_, i, x, y = N["s"], N["i"], N["x"], N["y"]
+        A, B = "%s += len(%s)" % (s_, x), "%s += len(%s) * 2" % (s_, y)
+        cmpop, first, second = (NEG[p["cmp"]], B, A) if pres["flip"] else (p["cmp"], A, B)
+        return sig + ("\t%s, %s := pick(%s), pick(%s)\n\t%s := 0\n\tfor %s := 0; %s < clamp(%s); %s++ {\n\t\tif %s %s 1 {\n\t\t\t%s\n\t\t} else {\n\t\t\t%s\n\t\t}\n\t}\n\treturn %s\n}\n"
+                      % (x, y, a, b, s_, i, i, a, i, i, cmpop, first, second, s_))
+    if t == "bigloop":
+        s_, i = N["s"], N["i"]
+        return sig + "\t%s := 0\n\tfor %s := %d; %s < %s; %s += %d {\n\t\t%s++\n\t}\n\treturn %s + %s\n}\n" % (
+            s_, i, p["ks"], i, b, i, p["kt"], s_, s_, a)
+    if t == "selectone":
+        x, y, v = N["x"], N["y"], N["i"]
+        first, second = (x, y) if p["first"] == "ca" else (y, x)
+        return sig + ("\t%s, %s := make(chan int, 1), make(chan int, 1)\n\t%s <- %s\n\t_ = %s\n\tselect {\n\tcase %s := <-%s:\n\t\treturn %s\n"
+                      "\tcase %s := <-%s:\n\t\treturn -%s\n\t}\n}\n") % (x, y, x, a, b, v, first, v, v, second, v)
+    if t == "ivwidth":
+        s_, i = N["s"], N["i"]
+        return sig + "\t_ = %s\n\t%s := 0\n\tfor %s := %s(0); %s < %s(clamp(%s)+4); %s++ {\n\t\t%s += int(%s * 60)\n\t}\n\treturn %s\n}\n" % (
+            b, s_, i, p["ty"], i, p["ty"], a, i, s_, i, s_)
     if t == "closure2":
         g, x, u, v = N["g"], N["x"], N["u"], N["v"]
         return sig + "\t%s, %s := %s+1, %s-1\n\t%s := func(%s int) int {\n\t\treturn %s\n\t}\n\treturn %s\n}\n" % (
